@@ -431,6 +431,9 @@ def oracle_select(st, opt, arg, aux):
                 for sn in f["signal_order"]:
                     if glob_oracle(n, sn):
                         tgt["free_list"].append(copy.deepcopy(f["signals"][sn]))
+        names = [s["name"] for s in tgt["free_list"]]
+        if len(set(names)) != len(names):
+            raise Silent("two free signals of one name: a DBC file cannot carry them (the writer numbers them)")
     elif opt == "merge":
         tgt = st
         for other in aux:
@@ -594,7 +597,7 @@ class Runner:
                 args += ["--" + k, v]
         return args
 
-    def run(self, infile, opts, how, style=0):
+    def run(self, infile, opts, how, style=0, reread=True):
         """how: 'fn' | 'cli'.  returns dict(status, exc, bytes, nf, db)"""
         self.n += 1
         out = os.path.join(self.tmp, "out_%s.dbc" % how)
@@ -613,10 +616,15 @@ class Runner:
         except BaseException as e:          # noqa: click raises its own exception classes, SystemExit included
             if isinstance(e, (KeyboardInterrupt, MemoryError)):
                 raise
+            if self.captured is not None:
+                # the pipeline had finished and handed its matrix to the writer: the writer failed, not the options
+                return dict(status="dumpfail", exc=type(e).__name__, msg=str(e)[:200], db=list(self.captured.values())[0])
             return dict(status="exc", exc=type(e).__name__, msg=str(e)[:200], db=None)
         if not os.path.exists(out):
             return dict(status="exc", exc="no output file", msg="", db=None)
         data = open(out, "rb").read()
+        if not reread:
+            return dict(status="ok", rc=rc, bytes=data, nf=None, db=list(self.captured.values())[0] if self.captured else None)
         try:
             nf = describe(self.load(out))
         except Exception as e:              # noqa
@@ -833,7 +841,7 @@ def put_str(s):
 
 def sig_group(tag, s, uid):
     mv = -1 if s.mux_val is None else int(s.mux_val)
-    g = [tag, uid, int(s.get_startbit()), int(s.size), int(bool(s.is_multiplexer)), mv, 0] + put_str(s.name) + [len(s.receivers)]
+    g = [tag, uid, int(s.get_startbit()), int(s.size), int(bool(s.is_little_endian)), int(bool(s.is_multiplexer)), mv, 0] + put_str(s.name) + [len(s.receivers)]
     for r in s.receivers:
         g += put_str(r)
     return g
@@ -900,6 +908,8 @@ EXC_CODE = {"ValueError": 0, "ArbitrationIdOutOfRange": 0, "AttributeError": 0, 
 def gen_tiny(rng, C, pdu=False):
     """a small in-memory matrix for the volume tie (handed to convert() through a wrapped loadp)"""
     db = C.CanMatrix()
+    db.add_frame_defines("Other", "INT 0 10")
+    db.add_frame_defines("VFrameFormat", 'ENUM  "StandardCAN","ExtendedCAN","reserved","reserved","reserved","reserved","reserved","reserved","reserved","reserved","reserved","reserved","reserved","reserved","StandardCAN_FD","ExtendedCAN_FD"')
     names = ["A", "AB", "B", "Fr1", "Fr2", "AX"]
     rng.shuffle(names)
     used = set()
@@ -985,6 +995,8 @@ def run(chk):
                 "oracle's description differs from the input's (the option had something to do); distinct by (input, options)")
     ensure_vo()
     ok = chk.build_and_audit()
+    if os.environ.get("VERIF_C18_ASSUME_KNOWN"):       # development aid only: treat these keys as if they were recorded
+        chk.known += [dict(property="C18", key=k, what="(assumed for this run) " + k) for k in os.environ["VERIF_C18_ASSUME_KNOWN"].split(",")]
     C = core.import_impl()
     tmp = tempfile.mkdtemp(prefix="c18_", dir="/tmp")
     R = Runner(C, tmp)
@@ -1087,7 +1099,9 @@ def _run(chk, rng, thorough, ok, C, R, tmp):
                     fail = ("effect", "exit status", 0, r.get("rc"))
                 d = compare(exp, r["nf"])
                 if d and (fail is None or fail[0] == "cli-vs-function"):
-                    fail = ("effect", "output differs from the documented effect", [list(map(str, x))[:3] for x in d[:6]], how)
+                    fail = ("effect", "output differs from the documented effect (%d difference(s), first ones shown)" % len(d),
+                            {x[0]: short(x[1], 300) for x in d[:6]},
+                            dict(via="convert()" if how == "fn" else "cli_convert.main", **{x[0]: short(x[2], 300) for x in d[:6]}))
         return fail, nontrivial, res, exp
 
     # ---- no options: byte-identical to load + dump through the API ----
@@ -1109,7 +1123,7 @@ def _run(chk, rng, thorough, ok, C, R, tmp):
         if not all(k in DIRECT for k, _ in opts):
             return
         groups = cl_groups(opts) + matrix_groups(inp_db, intern)
-        if fn_res["status"] == "ok" and fn_res["db"] is not None:
+        if fn_res["status"] in ("ok", "dumpfail", "unreadable") and fn_res["db"] is not None:
             exp = [[1]] + strip_uids(matrix_groups(fn_res["db"], intern))
         elif fn_res["status"] == "exc":
             exp = [[0]]
@@ -1206,10 +1220,14 @@ def _run(chk, rng, thorough, ok, C, R, tmp):
             chk.violation("cli-vs-function", "the command line entry point and convert() disagree on a malformed argument",
                           replay_input(inp, opts), "same result", "%s / %s" % (res["fn"].get("exc"), res["cli"].get("exc")))
         tie_direct(in_db, opts, res["fn"], dict(input=inp["idx"], options=opts))
-        # `given by truth value` (cmd 1810): an empty argument of these options means "not given"
-        if arg == "" and res["fn"]["status"] == "ok":
-            same = res["fn"]["bytes"] == R.run(inp["path"], [], "fn")["bytes"]
-            add_model(1810, [[KIND[opt]], []], [[0 if same else 1]], dict(option=opt, argument=""), True) if same else None
+        # `given by truth value` (cmd 1810): an empty --ecus / --frames / --signals selects nothing if it counted as given (the
+        # output would be an empty matrix) - it must not count; an empty tuple / number argument counts (and raises)
+        if arg == "":
+            if opt in ("ecus", "frames", "signals") and res["fn"]["status"] == "ok":
+                given = len(res["fn"]["nf"]["frames"]) == 0
+                add_model(1810, [[KIND[opt]], []], [[int(given)]], dict(option=opt, argument=""), True)
+            elif res["fn"]["status"] == "exc":
+                add_model(1810, [[KIND[opt]], []], [[1]], dict(option=opt, argument=""), True)
 
     # ---- small in-memory matrices (wrapped loadp): volume tie of the directly modelled options, PDU containers ----
     n_tiny = 400 if not thorough else 4000
@@ -1220,15 +1238,13 @@ def _run(chk, rng, thorough, ok, C, R, tmp):
         if pdu and rng.random() < 0.5:
             opts = [o for o in opts if o[0] != "ignorePduContainer"]
         R.fake_input = db
-        r = R.run("<memory>", opts, "fn")
+        r = R.run("<memory>", opts, "fn", reread=False)
         R.fake_input = None
         chk.count("tiny")
         chk.count("tiny-raises" if r["status"] == "exc" else "tiny-ok")
-        chk.case(("tiny", i), bool(db.frames))
+        chk.case(("tiny", i, tuple(opts)), bool(db.frames))
         if pdu:
             pdu_search(chk, C, db, opts, r)
-        if r["status"] == "unreadable":
-            r = dict(r, status="ok")               # the tie looks at the matrix handed to the writer, not at the file
         tie_direct(db, opts, r, dict(tiny=i, options=opts, frames=[f.name for f in db.frames]), shard=True)
     # convert_pdu_container_to_multiplexed on its own (cmd 1809)
     from canmatrix.convert import convert_pdu_container_to_multiplexed
@@ -1309,11 +1325,9 @@ def _run(chk, rng, thorough, ok, C, R, tmp):
     known_keys = {k.get("key") for k in chk.known}
     for i, (l, e, o) in enumerate(zip(lines, expect, out)):
         got = core.parse_out(o)
-        got = [got[0]] + strip_uids(got[1:]) if got and got[0] == [1] else (strip_uids(got) if l.startswith("711 ") else got)
         if got != e:
             if "opt-changeFrameId-effect" in known_keys and l.startswith("70f "):
                 alt = core.parse_out(core.run_model(["710 " + l.split(" ", 1)[1]])[0])
-                alt = [alt[0]] + strip_uids(alt[1:]) if alt and alt[0] == [1] else alt
                 if alt == e:
                     explained += 1
                     continue
@@ -1334,18 +1348,10 @@ def _run(chk, rng, thorough, ok, C, R, tmp):
     idx = rng.sample(range(len(small)), min(300, len(small)))
     shard = [small[i] for i in idx]
     mm, log = core.coq_shard([(c, g, e) for c, g, e in shard], "c18")
-    if mm is not None:
-        # answers of 1807/1809 carry the input's uids: compare after stripping (done in Coq is not possible) -> re-check in Python
-        real = []
-        for i in mm:
-            c, g, e = shard[i]
-            if c in (1807, 1809):
-                o = core.parse_out(core.run_model([core.fmt_case(c, g)])[0])
-                o = [o[0]] + strip_uids(o[1:]) if c == 1807 and o and o[0] == [1] else (strip_uids(o) if c == 1809 else o)
-                if o == e:
-                    continue
-            real.append(i)
-        mm = real
+    if mm and "opt-changeFrameId-effect" in known_keys:
+        # while that finding is recorded instead of repaired: explained when the model of the unpatched code (cmd 1808) agrees
+        mm = [i for i in mm if not (shard[i][0] == 1807 and
+                                    core.parse_out(core.run_model([core.fmt_case(1808, shard[i][1])])[0]) == shard[i][2])]
     chk.ties["vm_compute_shard"] = {"cases": len(shard), "mismatches": mm}
     if mm is None:
         chk.obligation_failures.append("in-Coq shard failed to evaluate")
@@ -1386,7 +1392,7 @@ def judge_compress(chk, R, inp, arg):
 def pdu_search(chk, C, db, opts, r):
     """the documented default (docs/cli.rst): PDU container frames become multiplexed frames; with --ignorePduContainer they are
     dropped; every other frame stays"""
-    if r["status"] != "ok" or r["db"] is None:
+    if r["status"] not in ("ok", "dumpfail") or r["db"] is None:
         return
     if any(k != "ignorePduContainer" for k, _ in opts):
         return
